@@ -120,7 +120,7 @@ static int sm_replay(sm_spec_t *sp, const char *ops) {
     while (*p) { hist[d++] = atoi(p); p = strchr(p, ','); if (!p) break; p++; }
     static char ckey[4096];
     vc_viol_print_per_class = 5;
-    int r = sp->transition(hist, d - 1, hist[d - 1], ckey, 1);
+    int r = sp->transition(hist, d - 1, hist[d - 1], ckey, sm_hist_mode ? 0 : 1);   /* unmerged histories: no observation between the operations, exactly as explored */
     printf("NOTE\ttransition returned %d, final state %s\n", r, r == 0 ? ckey : "-");
     return 0;
 }
